@@ -18,6 +18,7 @@ import GeoProofs.Lemmas.C05PFloat
 import GeoProofs.Lemmas.TRANArea
 import GeoProofs.Lemmas.SMLXPivot
 import GeoProofs.Lemmas.SMLXMain
+import GeoProofs.Lemmas.SMLXSimpleEq
 import Mathlib.Tactic.NormNum
 
 namespace Geo.Proofs.C05
@@ -1130,6 +1131,29 @@ theorem windingOrder_eq_sign_area_simple (r : List Pt) (h : ringSimple r = true)
   · have hw := hcw.2 c1
     refine ⟨⟨fun h' => ?_, fun h' => by linarith⟩, ⟨fun _ => c2, fun _ => hw⟩, by rw [hw]; simp, ne_of_lt c2⟩
     rw [hw] at h'; cases h'
+
+/-- [T] the two definitions of "simple closed ring" are one Boolean function: `simpleRing`
+(GeoModel/SimpleRing.lean — CLRS orientation tests on the array of merged coordinates; the definition the C05
+driver uses to decide whether a ring is in the domain of the winding clauses) equals `ringSimple`
+(GeoModel/Valid.lean — `line_intersection` / `Line: Intersects<Line>` on the merged segments; the domain of the
+topological properties, for which the lemmas are proved). Pair by pair: `segsMeet a b c d` ⇔ the closed segments
+share a point ⇔ `lineLine`; `foldsBack` ⇔ two consecutive segments share more than their common end ⇔
+`¬ adjacentOk`. -/
+theorem simpleRing_eq_ringSimple (r : List Pt) : simpleRing r = ringSimple r :=
+  Geo.Proofs.SMLX.simpleRing_eq_ringSimple r
+
+/-- [T] `windingOrder_eq_sign_area`, **the winding clause of the property exactly as the driver evaluates it**: for
+every ring the driver classifies as simple (`simpleRing r = true`), `winding_order` is CounterClockwise iff the
+exact area is positive, Clockwise iff it is negative, never `None`. -/
+theorem windingOrder_eq_sign_area (r : List Pt) (h : simpleRing r = true) :
+    (windingOrder r = some .ccw ↔ 0 < twiceSignedRingArea r) ∧
+    (windingOrder r = some .cw ↔ twiceSignedRingArea r < 0) ∧
+    windingOrder r ≠ none ∧ twiceSignedRingArea r ≠ 0 :=
+  windingOrder_eq_sign_area_simple r (by rw [← simpleRing_eq_ringSimple]; exact h)
+
+example : windingOrder [⟨0, 0⟩, ⟨4, 0⟩, ⟨4, 4⟩, ⟨2, 1⟩, ⟨0, 4⟩, ⟨0, 0⟩] = some .ccw := by
+  rw [(windingOrder_eq_sign_area _ (by decide +kernel)).1, twice_eq_shoelace _ (by decide)]
+  norm_num [shoelace2, det]
 
 /-- a non-convex simple ring (an arrow head), given clockwise, with a repeated coordinate -/
 example : windingOrder [⟨0, 0⟩, ⟨2, 1⟩, ⟨0, 4⟩, ⟨0, 4⟩, ⟨6, 1⟩, ⟨0, 0⟩] = some .cw := by
